@@ -228,12 +228,20 @@ def id_kinds(rep, prog):
                     K = K or Kinds(prog, fn)
                     args = call_args(n)
                     if len(args) == 2:
-                        pk = K.kind(args[0])
+                        from ..model import expand as _exp
+                        a0 = strip(_exp(fn, args[0]))      # a named pair local stands for the pair it was built from
+                        while a0.get("k") in ("ParenExpr", "CXXConstructExpr", "MaterializeTemporaryExpr", "ImplicitCastExpr") and len(a0.get("c", [])) == 1:
+                            a0 = strip(a0["c"][0])
+                        pk = K.kind(a0)
+                        if not (isinstance(pk, tuple) and pk[0] == "PAIR"):
+                            pk = K.kind(args[0])
                         got = (pk[1], pk[2]) if isinstance(pk, tuple) and pk[0] == "PAIR" else (None, None)
                     else:
                         got = (scalar(K.kind(args[0])), scalar(K.kind(args[1])))
                     if got == (CIDX, NIDX):
                         rep.ok("C08.id-kinds", prog, fn, n, "coupling stores (cell list index, node index)")
+                    elif None in got:
+                        rep.note("%s: the kinds of the stored pair could not be established (%s); not decided" % (prog.loc(fn, n), got))
                     else:
                         rep.violation("C08.id-kinds", prog, fn, n, "coupling stores %s" % (got,), "%s: a coupling must store (cell list index, node index); it is dereferenced through the population list" % short(n, 100))
                 if callee.endswith("::find") and "coupled_nodes_map_" in render(call_obj(n) or {}):
@@ -412,6 +420,17 @@ def fresh_ids(rep, prog):
                 continue
             n_sites += 1
             s = strip(src)
+            if s.get("k") == "DeclRefExpr" and s["ref"].get("dk") == "Var":
+                # a local that holds the freshly drawn id, used for this one cell only
+                from ..model import stable_locals as _sl
+                st_ = _sl(fn)
+                uses = [x for x in walk(fn["body"]) if x.get("k") == "DeclRefExpr" and x["ref"].get("did") == s["ref"]["did"]]
+                loop_of_decl = prog.index(fn).enclosing([v for v in walk(fn["body"]) if v.get("k") == "Var" and v.get("did") == s["ref"]["did"]][0], ("ForStmt", "CXXForRangeStmt", "WhileStmt")) if s["ref"]["did"] in st_ else None
+                loop_of_use = prog.index(fn).enclosing(n, ("ForStmt", "CXXForRangeStmt", "WhileStmt"))
+                id_uses = [x for x in walk(fn["body"]) if (x.get("k") == "CXXMemberCallExpr" and x.get("callee") == "cell::set_id" and any(y.get("k") == "DeclRefExpr" and y["ref"].get("did") == s["ref"]["did"] for y in walk(call_args(x)[0])))
+                           or (x.get("k") == "BinaryOperator" and x.get("op") == "=" and strip(x["c"][0]).get("k") == "MemberExpr" and strip(x["c"][0])["ref"].get("qn") == "cell::cell_id_" and any(y.get("k") == "DeclRefExpr" and y["ref"].get("did") == s["ref"]["did"] for y in walk(x["c"][1])))]
+                if s["ref"]["did"] in st_ and len(id_uses) == 1 and loop_of_decl is loop_of_use:
+                    s = strip(st_[s["ref"]["did"]])
             if s.get("k") == "UnaryOperator" and s.get("op") == "++" and s.get("postfix") and "max_cell_id_" in render(s["c"][0]):
                 rep.ok("C08.fresh-ids", prog, fn, n, "%s" % short(n, 70))
             else:
